@@ -140,7 +140,7 @@ def substitute(doc_template: str) -> str:
     return doc_template.replace("@@DIR@@", d)
 
 
-def run(doc_template: str) -> dict:
+def run(doc_template: str, route: str = "topicosvg") -> dict:
     p = _state["proc"]
     if p is None or _state["pid"] != os.getpid() or p.poll() is not None or _state["served"] >= RECYCLE:
         _kill()
@@ -149,7 +149,7 @@ def run(doc_template: str) -> dict:
     _state["served"] += 1
     t0 = time.monotonic()
     try:
-        p.stdin.write((json.dumps({"doc": doc, "soft": SOFT_S}) + "\n").encode())
+        p.stdin.write((json.dumps({"doc": doc, "soft": SOFT_S, "route": route}) + "\n").encode())
         p.stdin.flush()
     except (BrokenPipeError, OSError):
         rc = p.poll()
